@@ -75,26 +75,67 @@ fn reference(t: &Tree, table: &Table, ops: &[exmex::Operator<'static, V>], vars:
 
 const VAL_LITS: &[&str] = &["0", "1", "2", "3", "4", "5", "7", "9", "2.0", "0.5", "1.5", "3.0", "true", "false", "10", "8"];
 
-fn expression_case(rng: &mut Rng, table: &Table, ops: &[exmex::Operator<'static, V>], st: &mut Stats) {
+const INT_BIN: &[&str] = &["+", "-", "*", "/", "%", "|", "&", "XOR", "<<", ">>", "min", "max", "^"];
+const INT_UN: &[&str] = &["-", "+", "abs", "signum", "fact", "to_float"];
+const NUM_BIN: &[&str] = &["+", "-", "*", "/", "min", "max"];
+const NUM_UN: &[&str] = &["-", "+", "abs", "signum", "to_float", "to_int"];
+const CMP_OPS: &[&str] = &["==", "!=", "<", "<=", ">", ">="];
+
+fn expression_case(rng: &mut Rng, full_table: &Table, ops: &[exmex::Operator<'static, V>], st: &mut Stats) {
+    // three families keep most intermediate values free of error values: integers only,
+    // mixed numbers, and anything (the original untyped generator)
+    let family = rng.below(3);
+    let keep: Vec<&str> = match family {
+        0 => INT_BIN.iter().chain(INT_UN.iter()).copied().collect(),
+        1 => NUM_BIN.iter().chain(NUM_UN.iter()).copied().collect(),
+        _ => EXPR_BIN.iter().chain(EXPR_UN.iter()).copied().collect(),
+    };
+    let sub: Table = full_table.iter().filter(|o| keep.contains(&o.name)).cloned().collect();
+    let lits: &[&str] = match family {
+        0 => &["0", "1", "2", "3", "4", "5", "7", "9", "10", "8"],
+        1 => &["0", "1", "2", "3", "5", "2.0", "0.5", "1.5", "3.0", "7", "0.25"],
+        _ => VAL_LITS,
+    };
     let gcfg = GenCfg { lit_num: rng.range(3, 8), const_num: 0, un_num: rng.below(3), chain_num: rng.below(8), vars: vec!["x".into(), "y".into(), "z".into()] };
     let size = rng.range(2, 8);
-    let t = gen_tree(rng, table, size, &gcfg);
-    fn relit(t: &Tree, rng: &mut Rng) -> Tree {
+    let t = gen_tree(rng, &sub, size, &gcfg);
+    fn relit(t: &Tree, rng: &mut Rng, lits: &[&str]) -> Tree {
         match t {
-            Tree::Lit(_) => Tree::lit(*rng.pick(VAL_LITS)),
-            Tree::Un(o, a) => Tree::un(*o, relit(a, rng)),
-            Tree::Bin(o, a, b) => Tree::bin(*o, relit(a, rng), relit(b, rng)),
+            Tree::Lit(_) => Tree::lit(*rng.pick(lits)),
+            Tree::Un(o, a) => Tree::un(*o, relit(a, rng, lits)),
+            Tree::Bin(o, a, b) => Tree::bin(*o, relit(a, rng, lits), relit(b, rng, lits)),
             _ => t.clone(),
         }
     }
-    let tree = relit(&t, rng);
+    // translate the operator indices of the sub-table into the full table, optionally put a
+    // comparison at the root
+    fn reindex(t: &Tree, sub: &Table, full: &Table) -> Tree {
+        let f = |o: usize| full.iter().position(|x| x.name == sub[o].name).unwrap();
+        match t {
+            Tree::Un(o, a) => Tree::un(f(*o), reindex(a, sub, full)),
+            Tree::Bin(o, a, b) => Tree::bin(f(*o), reindex(a, sub, full), reindex(b, sub, full)),
+            _ => t.clone(),
+        }
+    }
+    let mut tree = reindex(&relit(&t, rng, lits), &sub, full_table);
+    if family < 2 && rng.chance(1, 3) {
+        let k = rng.range(1, 4);
+        let t2 = gen_tree(rng, &sub, k, &gcfg);
+        let other = reindex(&relit(&t2, rng, lits), &sub, full_table);
+        let cmp_name = *rng.pick(CMP_OPS);
+        let cmp = full_table.iter().position(|o| o.name == cmp_name).unwrap();
+        tree = Tree::bin(cmp, tree, other);
+    }
+    let table = full_table;
+    st.bump(["expression_family_integers", "expression_family_mixed_numbers", "expression_family_untyped"][family]);
+    let int_vars = family == 0;
     if self_chained(&tree, table) {
         return;
     }
     let cfg = if rng.chance(1, 2) { RenderCfg::plain() } else { RenderCfg { call: rng.below(3), ..RenderCfg::random(rng) } };
     let text = render(&tree, table, rng, &cfg);
     let vars = tree.vars();
-    let vals: Vec<V> = vars.iter().map(|_| if rng.chance(1, 2) { Val::Int(rng.below(10) as i32) } else { Val::Float([0.5, 1.0, 2.0, 2.5, 4.0][rng.below(5)]) }).collect();
+    let vals: Vec<V> = vars.iter().map(|_| if int_vars || rng.chance(1, 2) { Val::Int(rng.below(10) as i32) } else { Val::Float([0.5, 1.0, 2.0, 2.5, 4.0][rng.below(5)]) }).collect();
     let mut saw_error = false;
     let want = match catch(|| reference(&tree, table, ops, &vars, &vals, &mut saw_error)) {
         Ok(w) => w,
@@ -114,7 +155,13 @@ fn expression_case(rng: &mut Rng, table: &Table, ops: &[exmex::Operator<'static,
         Err(m) => Some(format!("panic: {m}")),
         Ok(Err(e)) => Some(format!("error: {}", e.msg())),
         Ok(Ok(v)) => {
-            if format!("{v:?}") != format!("{want:?}") {
+            // a permitted regrouping of flagged + and * changes float rounding (and the sign of a
+            // zero): floats are compared to within rounding, everything else exactly
+            let same = match (&v, &want) {
+                (Val::Float(a), Val::Float(b)) => (a.is_nan() && b.is_nan()) || a == b || (a - b).abs() <= 1e-9 * a.abs().max(b.abs()),
+                _ => format!("{v:?}") == format!("{want:?}"),
+            };
+            if !same {
                 Some(format!("value {v:?}, documented semantics give {want:?}"))
             } else {
                 None
